@@ -42,9 +42,19 @@ def build_env(seed, tier):
     return {"RECSIM_SEED": str(seed), "RECSIM_SWARM": str(t["swarm"]), "RECSIM_CAPS": str(t["caps"]), "RECSIM_CORPUS": "1"}
 
 
+HOOK_PROPS = ("C06", "C07")
+HOOK_CFG = "--cfg truc_verif_hooks"
+
+
 def build(profile, seed, tier, miri=False, plans=None):
     env = cargo_env()
     env.update(build_env(seed, tier))
+    hooks = profile == "hooks"
+    if hooks:
+        # the guarded instrumentation of truc_runtime::data (off in every other arm)
+        env["RUSTFLAGS"] = HOOK_CFG
+        env["CARGO_TARGET_DIR"] = os.path.join(TARGET, "hooks")
+        profile = "dev"
     if plans:
         env["RECSIM_PLANS"] = plans
     cmd = ["cargo", "build", "--offline", "-p", "recsim"]
@@ -56,7 +66,7 @@ def build(profile, seed, tier, miri=False, plans=None):
         dt = time.time() - t0
     if p.returncode != 0:
         raise HarnessError("recsim %s build failed (a generated module that does not compile is a pipeline failure, not a verdict of this check):\n%s" % (profile, p.stdout[-6000:]))
-    src = os.path.join(TARGET, "release" if profile == "release" else "debug", "recsim")
+    src = os.path.join(env["CARGO_TARGET_DIR"], "release" if profile == "release" else "debug", "recsim")
     # keep a private copy: another check may rebuild the shared binary with other definitions
     return src, dt
 
@@ -250,7 +260,8 @@ def check(prop, tier, seed):
     log("SIM-R %s tier=%s VERIF_SEED=%d" % (prop, tier, seed))
     bins = {}
     build_s = 0.0
-    for profile in ("dev", "release"):
+    profiles = ("dev", "release") + (("hooks",) if prop in HOOK_PROPS and os.environ.get("VERIF_NO_HOOKS") != "1" else ())
+    for profile in profiles:
         src, dt = build(profile, seed, tier)
         build_s += dt
         # private copy per (check, profile): a concurrently started check may rebuild the shared path
@@ -263,9 +274,9 @@ def check(prop, tier, seed):
     free_share, fault_share = ARMS[prop]
     jobs = []
     per_profile_workers = max(1, WORKERS // 2)
-    for profile in ("dev", "release"):
+    for profile in profiles:
         for faults, share in (("off", free_share), ("on", fault_share)):
-            total = int(t["runs"] * share)
+            total = int(t["runs"] * share * (0.5 if profile == "hooks" else 1))
             workers = max(1, int(round(per_profile_workers * share)))
             for (start, n) in split_ranges(total, workers):
                 if n == 0:
@@ -279,7 +290,7 @@ def check(prop, tier, seed):
     total = Merged()
     per_arm = {}
     crashes = []
-    hashes = {"dev": [], "release": []}
+    hashes = {"dev": [], "release": [], "hooks": []}
     # crash supervision: a worker that died is restarted right after the history that killed it
     restarts = 0
     pending = list(zip(jobs, results))
